@@ -93,6 +93,86 @@ class TaggedOdometry(EdgeOdometry):
         return e
 
 
+def lifecycle(run):
+    """Binding B for the file round trip: sessions in which the graph is exported and re-imported BETWEEN other calls (optimizer runs, flag
+    changes, queries) and then used further; every call is validated against GraphSLAM!Reload by Trace_GraphSLAM."""
+    from .. import scenario
+
+    def opt(m, tol='1e-4', ff=True):
+        return {'op': 'OptCall', 'maxIter': m, 'fixFirst': ff, 'verbose': False, 'tol': tol, 'q': '-', 'target': 0, 'idx': 0, 'flag': False}
+
+    def q(name, t=1):
+        return {'op': 'Query', 'q': name, 'target': t, 'maxIter': 0, 'fixFirst': False, 'verbose': False, 'tol': '-', 'idx': 0, 'flag': False}
+
+    def fx(i, b):
+        return {'op': 'SetFixed', 'idx': i, 'flag': b, 'q': '-', 'target': 0, 'maxIter': 0, 'fixFirst': False, 'verbose': False, 'tol': '-'}
+    rl = {'op': 'Reload', 'q': '-', 'target': 0, 'maxIter': 0, 'fixFirst': False, 'verbose': False, 'tol': '-', 'idx': 0, 'flag': False}
+    names = ['se2plain', 'se2plainc', 'se3reg', 'se3regc', 'se2', 'se3', 'se2c', 'se3c', 'mixed', 'se2fix', 'se3fix', 'r2', 'r3', 'r2c', 'se2big', 'se2weighted', 'se2alias', 'se2shared']
+    behaviours = []
+    for n in names:
+        behaviours += [(n, [rl, q('calc_chi2'), rl]), (n, [opt(2), rl, opt(3), q('to_g2o'), rl, opt(1, '0', False)]),
+                       (n, [fx(2, True), fx(3, True), rl, q('calc_chi2'), opt(2), rl])]
+    events = []
+    sessions = scenario.play(behaviours, run.seed, events, twin_every=10 ** 6)
+    rejects = scenario.validate(run, events, name='Trace_lifecycle')
+    st = {'sessions': len(sessions), 'reloads_continued': 0, 'reloads_refused': 0, 'edges_without_writer_dropped': 0, 'flags_cleared': 0}
+    prev = {}
+    for e in events:
+        if e['op'] == 'Reload':
+            st['reloads_refused' if e['raised'] else 'reloads_continued'] += 1
+            if not e['raised'] and e['sid'] in prev:
+                st['edges_without_writer_dropped'] += len(prev[e['sid']]['edges']) - len(e['edges'])
+                st['flags_cleared'] += sum(v['fixed'] for v in prev[e['sid']]['verts'])
+        prev[e['sid']] = e
+    run.notes['lifecycle_sessions'] = st
+    run.replayed += len(sessions)
+    if min(st['reloads_continued'], st['reloads_refused'], st['edges_without_writer_dropped'], st['flags_cleared']) == 0:
+        raise RuntimeError('vacuity guard (lifecycle): %r' % st)
+    if not any(c.startswith('reload-') for _, _, c in rejects):
+        # binding self-test: corrupted recordings must be rejected by the Reload clauses (otherwise this part would be vacuous)
+        import copy
+        small = [e for e in events if e['sid'] <= 9]
+        wanted = []
+        t1 = copy.deepcopy(small)
+        for e in t1:
+            if e['op'] == 'Reload' and not e['raised']:
+                e['verts'][1]['fixed'] = True                 # a flag "survives" the file
+                wanted.append((t1, (e['sid'], e['seq'], 'reload-effect')))
+                break
+        t2 = copy.deepcopy(small)
+        for e in t2:
+            if e['op'] == 'Reload' and not e['raised'] and len(e['edges']) > 2 and e['edges'][0]['vids'] != e['edges'][1]['vids']:
+                e['edges'][0], e['edges'][1] = e['edges'][1], e['edges'][0]          # edge order changed by the round trip
+                wanted.append((t2, (e['sid'], e['seq'], 'reload-effect')))
+                break
+        t3 = copy.deepcopy(small)
+        for e in t3:
+            if e['op'] == 'Reload' and not e['raised']:
+                e['bound'][0] = list(reversed(e['bound'][0]))                        # the first edge is attached to its vertices the other way round
+                wanted.append((t3, (e['sid'], e['seq'], 'reload-binding')))
+                break
+        for trace, want in wanted:
+            rej = scenario.validate(run, trace, name='Trace_selftest')
+            if want not in rej:
+                raise RuntimeError('lifecycle binding self-test: corrupted trace not rejected with %r (rejections %r)' % (want, rej[:4]))
+        if len(wanted) < 3:
+            raise RuntimeError('lifecycle binding self-test: only %d corruptions could be constructed' % len(wanted))
+        st['binding_selftest_corruptions_rejected'] = len(wanted)
+    byid = {(e['sid'], e['seq']): e for e in events}
+    for sid, seq, clause in rejects:
+        if not clause.startswith('reload-'):
+            continue          # the other clauses belong to C06 / C12 / C15 / C18 and are reported there
+        ev = byid[(sid, seq)]
+        run.violation(dict(part='lifecycle', clause=clause, template=sessions[sid].template, raised=ev.get('raised')),
+                      'session %d (template %s) event %d: export + import inside a session violates clause %s of GraphSLAM!Reload (raised=%r) %r' % (
+                          sid, sessions[sid].template, seq, clause, ev.get('raised'), sessions[sid].details.get(seq)),
+                      dict(template=sessions[sid].template, event={k: v for k, v in ev.items() if k not in ('verts', 'edges')},
+                           prefix=[{k: v for k, v in x.items() if k not in ('verts', 'edges')} for x in events if x['sid'] == sid and x['seq'] < seq]))
+    for e in events:
+        if e['op'] == 'Reload':
+            run.count(key=('lifecycle', e['sid'], e['seq']), nontrivial=not e['raised'])
+
+
 def check(run):
     rnd = random.Random(run.seed * 17 + 2)
     thorough = run.tier == 'thorough'
@@ -231,6 +311,7 @@ def check(run):
         import shutil
         shutil.rmtree(tmpdir, ignore_errors=True)
     run.notes['round_trips'] = stats
+    lifecycle(run)
     if stats['expressible'] == 0 or stats['refused'] == 0:
         raise RuntimeError('vacuity guard: %r' % stats)
     run.rule = ('random real graphs (SE2+R2 / SE3+R3, odometry and landmark edges, offset parameters by id, shuffled lists, ids negative / > 2^40, quaternions with w<0, '
